@@ -613,6 +613,18 @@ func commentSeq(text string) []string {
 	return out
 }
 
+// passSeq: the lines Write copies as they are — comment lines, blank lines and every line without '='
+// (the property: each of them is byte-identical and in place after a write-back).
+func passSeq(text string) []string {
+	var out []string
+	for _, l := range physLines(text) {
+		if isCommentOrBlank(l) || !strings.Contains(l, "=") {
+			out = append(out, l)
+		}
+	}
+	return out
+}
+
 // hasContinuation: a physical line ending in an odd number of backslashes
 func hasContinuation(text string) bool {
 	for _, l := range physLines(text) {
@@ -708,10 +720,33 @@ func evalWriteProperty(oldText, newText string, assigned map[string]string) [][2
 			break
 		}
 	}
-	// comments and blank lines survive, in order
-	cb, ca := commentSeq(oldText), commentSeq(newText)
-	if strings.Join(cb, "\n") != strings.Join(ca, "\n") {
-		bad = append(bad, [2]string{"comment", fmt.Sprintf("comment/blank lines before %q after %q", cb, ca)})
+	// every line that is not a key=value line (comments, blank lines, lines without '=') is byte-identical
+	// and in order.  (Skipped when a value holds a line break: such a value spills into extra lines — the
+	// value-escape finding.)
+	spill := false
+	for _, m := range []map[string]string{before, assigned} {
+		for _, v := range m {
+			if strings.ContainsAny(v, "\r\n") {
+				spill = true
+			}
+		}
+	}
+	if !spill {
+		cb, ca := passSeq(oldText), passSeq(newText)
+		if strings.Join(cb, "\n") != strings.Join(ca, "\n") {
+			i := 0
+			for i < len(cb) && i < len(ca) && cb[i] == ca[i] {
+				i++
+			}
+			was, now := "(none)", "(none)"
+			if i < len(cb) {
+				was = cb[i]
+			}
+			if i < len(ca) {
+				now = ca[i]
+			}
+			bad = append(bad, [2]string{"comment", fmt.Sprintf("a line that is not one of the written keys was not copied byte for byte: %q became %q", was, now)})
+		}
 	}
 	// order: surviving keys keep their relative order, new keys come after them
 	var expOrder []string
@@ -871,7 +906,7 @@ func (h *harness) oneWrite(parser *conffile.DefaultFileParser, w writeCase, wfOn
 		var key string
 		switch {
 		case b[0] == "comment":
-			key = "writeback:comment-line-rewritten"
+			key = "write-back:pass-through-line"
 		case !keyWF:
 			key = "writeback:key-escape"
 		case !valWF:
@@ -899,7 +934,7 @@ func (h *harness) oneWrite(parser *conffile.DefaultFileParser, w writeCase, wfOn
 	h.add(check{line: line, cmp: func(got string) bool { return matchWrite(newText, got) }, onDiff: func(got string) {
 		for _, b := range bad {
 			if b[0] == "comment" {
-				return // already reported as the comment-line defect; the model describes the repaired behaviour
+				return // already reported with a failing input under write-back:pass-through-line
 			}
 		}
 		h.rep.Fail("correspondence", "writeback:model", "write-back model and implementation disagree",
